@@ -721,6 +721,9 @@ func (g *gen) genTypes() {
 		// hidden fields anywhere in the struct: in front of, between and behind the visible ones
 		insertAt := func(f Field) {
 			at := g.r.Intn(len(s.Fields) + 1)
+			for at > 0 && s.Fields[at-1].GroupWithNext {
+				at-- // never between the two names of one declaration (Lat, Lng float64)
+			}
 			s.Fields = append(s.Fields[:at], append([]Field{f}, s.Fields[at:]...)...)
 		}
 		if prof.HiddenJSON && g.chance(0.4) {
